@@ -39,6 +39,7 @@ theorem trD_recv (hl : ∀ s, (cfg.lower s).length = s.length) (n : Nat) (ihA : 
   cases a with
   | any => exact asg_any_l cfg sfh c
   | unit => have := H.fa; unfold Ty.TD at this; exact absurd this id
+  | callable _ _ _ => have := H.fa; unfold Ty.TD at this; exact absurd this id
   | data => exact recv_to_asg cfg sfh _ c hc (trD_alias_recv cfg sfh .data n ihA hw m ihB b c hm H h1 h2 h2')
   | richData => exact recv_to_asg cfg sfh _ c hc (trD_alias_recv cfg sfh .rich n ihA hw m ihB b c hm H h1 h2 h2')
   | tuple ts g => exact recv_to_asg cfg sfh _ c hc (trD_tuple cfg sfh n ihA ts g b c hw H h1 h2')
